@@ -57,6 +57,7 @@ pub fn drive_on(c: &DropCase, with_drops: bool, vectored: bool) -> Outcome {
     let r = guard(|| {
         rt.block_on(async {
             let mut framed = insim::net::tokio_impl::Framed::new(Box::new(t2.clone()), Codec::new(mode.clone()));
+            framed.verify_version(c.session.verify);
             let mut results: Vec<String> = vec![];
             let mut polls = 0usize;
             let (mut dr, mut dw) = (0usize, 0usize);
@@ -172,7 +173,7 @@ pub fn judge(c: &DropCase, ev: &mut Local) -> Result<(), Fail> {
         fail!("c19:panic", "interrupted session panicked: {p}");
     }
     // the uninterrupted session itself must agree with the C05 model (sanity of the driver)
-    let model = model_results(&mode, false, &c.session.steps, false, base.results.len().max(1) + 2);
+    let model = model_results(&mode, c.session.verify, &c.session.steps, false, base.results.len().max(1) + 2);
     ensure!(base.results == model, "harness:driver-disagrees-with-model", "{:?} vs {:?}", base.results.len(), model.len());
     if got.results != base.results {
         let i = (0..got.results.len().max(base.results.len())).find(|i| got.results.get(*i) != base.results.get(*i)).unwrap();
@@ -570,7 +571,9 @@ impl Part for RealAdaptors {
 
 /// the generated schedules of the second part (also used by C20's write-call part)
 pub fn drop_case_strategy() -> impl Strategy<Value = DropCase> {
-    let reads_faults = session_strategy(10, 8, 0, false, Some(false));
+    // (IS_VER packets of any version among the frames, the version gate on in half of the sessions: a refused packet is a result
+    // like any other and must survive cancellation)
+    let reads_faults = session_strategy(10, 8, 2, false, None);
     (
         reads_faults,
         proptest::collection::vec(prop_oneof![2 => Just(ReadStep::Pending)], 0..8),
